@@ -924,6 +924,38 @@ func oracle(op opInfo, line string, pre, post *snap) []viol {
 			add("negative-stake", "voter %d has %d ballots for candidate %d", k[1], post.tdVotes[k], k[0])
 		}
 	}
+	// ... and a successful staking call puts exactly what it locked on the books of its initiator
+	if op.ok {
+		bad := func(format string, a ...interface{}) {
+			add("stake-record-changed-by-"+op.kind, "the call succeeded but "+format, a...)
+		}
+		switch op.kind {
+		case "propose":
+			if k := [2]int{post.lastPid, op.acct}; post.lastPid != pre.lastPid+1 || post.locks[k] != 1000 {
+				bad("the lock record of the proposer for the new proposal is %d (last id %d -> %d)", post.locks[k], pre.lastPid, post.lastPid)
+			}
+		case "vote":
+			if k := [2]int{op.pid, op.acct}; post.locks[k]-pre.locks[k] != op.amount {
+				bad("the lock record of the voter went %d -> %d for %d voted", pre.locks[k], post.locks[k], op.amount)
+			}
+		case "nominate":
+			if r, has := post.noms[op.to]; !has || r.nominator != op.acct || r.amount != op.amount {
+				bad("the nomination record of candidate %d is %v (present: %v)", op.to, r, has)
+			}
+		case "revnom":
+			if r, has := post.noms[op.to]; has {
+				bad("the nomination record of candidate %d is still there: %v", op.to, r)
+			}
+		case "tvote", "trevoke":
+			want := op.amount
+			if op.kind == "trevoke" {
+				want = -want
+			}
+			if k := [2]int{op.to, op.acct}; post.tdVotes[k]-pre.tdVotes[k] != want {
+				bad("the ballots of voter %d for candidate %d went %d -> %d", op.acct, op.to, pre.tdVotes[k], post.tdVotes[k])
+			}
+		}
+	}
 	// (3) locks bind transfers
 	if op.kind == "xfer" && op.ok {
 		p0, p1 := pre.bal[op.acct], post.bal[op.acct]
@@ -1161,6 +1193,10 @@ func tdposAlphabet(level int) []string {
 	a := []string{"nominate 1 0 500 1 +", "nominate 0 0 500 0 +", "nominate 0 1 700 1 +", "tvote 0 0 600 +", "tvote 1 0 400 +", "tvote 0 1 600 +",
 		"revnom 1 0 +", "revnom 0 0 +", "revnom 0 1 +", "trevoke 0 0 600 +", "trevoke 1 0 400 +", "trevoke 0 0 100 +",
 		"xfer 0 1 2000", "xfer 1 0 1000", "lock T 0 500 t", "unlock T 0 500 t"}
+	if level == 2 { // core: deeper histories around one third-party and one self-made nomination
+		return []string{"nominate 1 0 500 1 +", "nominate 0 1 700 1 +", "tvote 0 0 600 +", "tvote 1 0 400 +", "revnom 1 0 +", "revnom 0 1 +",
+			"trevoke 0 0 600 +", "trevoke 1 0 400 +", "revnom 1 0 4", "xfer 0 1 2400"}
+	}
 	if level == 0 {
 		a = append(a, "revnom 1 0 2", "revnom 1 0 3", "revnom 0 0 3", "nominate 1 1 300 0 2", "nominate 0 1 300 1 3", "tvote 0 0 600 3", "tvote 1 0 100 4",
 			"trevoke 0 0 600 3", "trevoke 0 0 600 4", "nominate 0 0 500 0 1", "nominate 0 0 500 0 99", "tvote 0 0 1 0", "revnom 0 0 -1", "seal",
@@ -1541,10 +1577,10 @@ func main() {
 	rules = append(rules, fmt.Sprintf("all sequences of <= %d calls over %d calls after a proposal that can pass (votes at threshold-1 / threshold, timers at stop and trigger heights, trigger target ok/failing)", lifeDepth, len(lifecycleAlphabet())))
 	// 2b. the real $tdpos contract: exhaustive short histories, then histories after a third-party nomination whose
 	// candidate has votes of its own locked
-	tdl := []lvl{{0, 2}, {1, 3}}
+	tdl := []lvl{{0, 2}, {1, 3}, {2, 4}}
 	tdLife := 2
 	if thorough {
-		tdl = []lvl{{0, 3}, {1, 4}}
+		tdl = []lvl{{0, 3}, {1, 4}, {2, 5}}
 		tdLife = 3
 	}
 	for _, l := range tdl {
@@ -1555,7 +1591,9 @@ func main() {
 	enumerate(out, []string{resetBig, "init 0", "nominate 1 0 500 1 +", "tvote 0 0 600 +"}, tdposAlphabet(0), tdLife)
 	enumerate(out, []string{"reset 0:3000 1:1500 50:2500", "init 0", "nominate 50 1 400 1 +", "tvote 1 1 300 +", "tvote 50 1 300 +"}, tdposAlphabet(1), tdLife)
 	// 3. random longer sequences (duplicated genesis entries, lower-case account, all callers)
-	rng := xvlib.NewRng(args.Seed)
+	// xvlib.NewRng(s) and NewRng(s+1) are the same splitmix stream one draw apart (and the generators re-synchronise on
+	// it): spread the seeds so that different VERIF_SEEDs give unrelated streams
+	rng := xvlib.NewRng((args.Seed ^ (args.Seed << 29) ^ 0x5bf0a8b1457695) * 0xD6E8FEB86659FD93)
 	for i := 0; i < nRandom; i++ {
 		var c []string
 		if i%3 == 0 {
